@@ -13,6 +13,7 @@ type rcStats struct {
 	pendingGrow   int64 // low in 0xFF000000..0xFFFFFFFF: a 0xFF is held back
 	carry         int64 // low overflowed 32 bits
 	carryPending  int64 // carry while at least one 0xFF was pending (the 3999->4000 flip)
+	carryPending2 int64 // carry while two or more 0xFF were pending
 	maxPendingRun int64
 }
 
@@ -33,6 +34,9 @@ func (rc *modelRC) shiftLow() {
 			rc.st.carry++
 			if rc.cacheSize > 1 {
 				rc.st.carryPending++
+			}
+			if rc.cacheSize > 2 {
+				rc.st.carryPending2++
 			}
 		}
 		tmp := rc.cache
